@@ -212,6 +212,39 @@ fn long_bracket_body(raw: &[u8]) -> Result<&[u8], String> {
     Ok(body)
 }
 
+/// Body of a long-bracket string -> value, with the line-end rules of the real implementations:
+///
+/// * Lua 5.1 (`llex.c`, `read_long_string`): each of `\r\n`, `\n\r`, `\r`, `\n` is one newline;
+///   a newline directly after the opening bracket is dropped, every other one becomes `\n`.
+/// * Luau (`Lexer::fixupMultilineString`): only `\r\n` and `\n` are newlines; a leading one is
+///   dropped, every other one becomes `\n`; a `\r` that is not followed by `\n` is kept verbatim.
+fn decode_long_body(body: &[u8], mode: Mode) -> Vec<u8> {
+    let mut out = Vec::with_capacity(body.len());
+    let mut i = 0;
+    let mut first = true;
+    while i < body.len() {
+        let c = body[i];
+        let nl_len = match (mode, c) {
+            (_, b'\r') if body.get(i + 1) == Some(&b'\n') => 2,
+            (Mode::Lua51, b'\n') if body.get(i + 1) == Some(&b'\r') => 2,
+            (_, b'\n') => 1,
+            (Mode::Lua51, b'\r') => 1,
+            _ => 0,
+        };
+        if nl_len > 0 {
+            if !first {
+                out.push(b'\n');
+            }
+            i += nl_len;
+        } else {
+            out.push(c);
+            i += 1;
+        }
+        first = false;
+    }
+    out
+}
+
 /// Decodes a string literal.  `raw` is the literal text including quotes or long brackets.
 /// A simple interpolated string `` `text` `` (no `{}`), Luau mode only, is accepted too.
 pub fn decode_string(raw: &str, mode: Mode) -> Result<Vec<u8>, String> {
@@ -229,14 +262,7 @@ pub fn decode_string(raw: &str, mode: Mode) -> Result<Vec<u8>, String> {
         }
         b'[' => {
             let body = long_bracket_body(b)?;
-            let skip = if body.starts_with(b"\r\n") || body.starts_with(b"\n\r") {
-                2
-            } else if body.starts_with(b"\n") || body.starts_with(b"\r") {
-                1
-            } else {
-                0
-            };
-            Ok(body[skip..].to_vec())
+            Ok(decode_long_body(body, mode))
         }
         b'`' if mode == Mode::Luau => {
             if b[b.len() - 1] != b'`' {
@@ -312,7 +338,7 @@ fn pow2_digits_to_f64(digits: &[u8], bits_per_digit: u32) -> f64 {
     if shift >= 1024 {
         return f64::INFINITY;
     }
-    let scale = f64::from_bits(((1023 + shift) as u64) << 52);
+    let scale = f64::from_bits((1023 + shift) << 52);
     m * scale
 }
 
@@ -530,11 +556,12 @@ mod tests {
             assert_eq!(d("[[abc]]"), b"abc".to_vec());
             assert_eq!(d("[[\nabc]]"), b"abc".to_vec());
             assert_eq!(d("[[\r\nabc]]"), b"abc".to_vec());
-            assert_eq!(d("[[\n\rabc]]"), b"abc".to_vec());
-            assert_eq!(d("[[\rabc]]"), b"abc".to_vec());
             assert_eq!(d("[[\n\nabc]]"), b"\nabc".to_vec());
-            assert_eq!(d("[[\r\n\r\nabc]]"), b"\r\nabc".to_vec());
-            assert_eq!(d("[[a\r\nb\\n]]"), b"a\r\nb\\n".to_vec());
+            assert_eq!(d("[[\r\n\r\nabc]]"), b"\nabc".to_vec());
+            // line ends inside are normalised to LF, escapes are not interpreted
+            assert_eq!(d("[[a\r\nb\\n]]"), b"a\nb\\n".to_vec());
+            assert_eq!(d("[[a\nb\r\nc\n]]"), b"a\nb\nc\n".to_vec());
+            assert_eq!(d("[[a\r\n\r\nb]]"), b"a\n\nb".to_vec());
             assert_eq!(d("[=[a]]b]=]"), b"a]]b".to_vec());
             assert_eq!(d("[==[a]=]b]==]"), b"a]=]b".to_vec());
             assert_eq!(d("[===[\n]===]"), b"".to_vec());
@@ -543,6 +570,18 @@ mod tests {
             assert_eq!(d("[[ \nabc]]"), b" \nabc".to_vec());
             assert_eq!(d("[[[[]]"), b"[[".to_vec());
         }
+        // lone CR and LF CR: newlines for Lua 5.1, plain bytes for Luau
+        assert_eq!(ds51("[[\rabc]]"), b"abc".to_vec());
+        assert_eq!(ds("[[\rabc]]"), b"\rabc".to_vec());
+        assert_eq!(ds51("[[\n\rabc]]"), b"abc".to_vec());
+        assert_eq!(ds("[[\n\rabc]]"), b"\rabc".to_vec());
+        assert_eq!(ds51("[[a\rb]]"), b"a\nb".to_vec());
+        assert_eq!(ds("[[a\rb]]"), b"a\rb".to_vec());
+        assert_eq!(ds51("[[a\n\rb]]"), b"a\nb".to_vec());
+        assert_eq!(ds("[[a\n\rb]]"), b"a\n\rb".to_vec());
+        assert_eq!(ds51("[[a\r\rb]]"), b"a\n\nb".to_vec());
+        assert_eq!(ds51("[[a\r\n\rb]]"), b"a\n\nb".to_vec());
+        assert_eq!(ds("[[a\r\n\rb]]"), b"a\n\rb".to_vec());
     }
 
     #[test]
